@@ -119,7 +119,8 @@ def run(prop, templates, level, assumptions, explanation, reject_is_violation=Tr
                                 'witness_inputs': r.get('witness_inputs'), 'witness_native': r.get('witness_native')})
     if post:
         post(rep, templates, results)
-    cov = {
+    cov = dict(rep.coverage)
+    cov.update({
         'programs': len(templates), 'disagreements_checked': disagreements,
         'states': agg['paths'], 'transitions': agg['queries'], 'traces_validated_against_impl': replays,
         'explanation': explanation,
@@ -130,7 +131,7 @@ def run(prop, templates, level, assumptions, explanation, reject_is_violation=Tr
         'vacuity_witnesses_sat': witnesses, 'replays_run': replays, 'replays_agreeing_with_encoding': replays_ok,
         'runtime_summaries_used': sorted(summaries), 'exhaustive': False,
         'bounds': 'all 2^64 values of every template parameter; loops unrolled per template (unwinding assertion: a path entering a block more than unroll+1 times is inconclusive); template family listed under families',
-    }
+    })
     if extra_cov:
         cov.update(extra_cov)
     return rep.finish(cov, assumptions), results
